@@ -38,7 +38,8 @@
   probed); ckks noise ("within the noise-implied precision" is a probe threshold); the trace ↔ value link of
   layer (B) to layer (A) is through the ties (`ps=` equals the decrypted values), not a theorem.
 
-  The model follows the code with the fixes C13-1 … C13-9 applied (`fixes/C13-*.diff`).
+  The model follows the code with the fixes C13-1 … C13-10 applied (`fixes/C13-*.diff`); C13-10: the parity of a
+  VECTOR (`vecFlags`, `vector_parity_spec`) — a parity is skipped iff all members lack it.
 -/
 import Lattigo.Proofs.PolyEvalDepth
 import Lattigo.Proofs.PolyEvalScale
@@ -377,6 +378,53 @@ example : (run { t := 65537, q := [705, 16321], cheb := false, slots := 4 } [[5,
     [2, 3, 4, 5]).2.2.map (·.val)
     = some [19, 0, 9, 0] := by decide +kernel
 
+/-! ## vectors of polynomials with different parity flags -/
+
+/-- **vector_parity_spec** (after fix C13-10): the odd-indexed (resp. even-indexed, constant included) coefficients are
+    evaluated iff AT LEAST ONE member of the vector may have some — i.e. a parity is skipped iff ALL members
+    are flagged as lacking it (the conjunction over the members; a member flagged both — the constructor's default —
+    or neither is general) -/
+theorem vector_parity_spec (fl : List (Bool × Bool)) :
+    ((vecFlags fl).2 = false ↔ ∀ f ∈ fl, f = (true, false)) ∧
+    ((vecFlags fl).1 = false ↔ ∀ f ∈ fl, f = (false, true)) := by
+  unfold vecFlags
+  simp only [List.any_eq_false, Bool.or_eq_true, Bool.not_eq_true', not_or, Bool.not_eq_true, Bool.not_eq_false]
+  constructor
+  · constructor
+    · intro h f hf; obtain ⟨h1, h2⟩ := h f hf; exact Prod.ext h2 h1
+    · intro h f hf; rw [h f hf]; exact ⟨rfl, rfl⟩
+  · constructor
+    · intro h f hf; obtain ⟨h1, h2⟩ := h f hf; exact Prod.ext h1 h2
+    · intro h f hf; rw [h f hf]; exact ⟨rfl, rfl⟩
+
+/-- one general member (flags equal) makes the whole vector general: every power is used and the constant
+    is added — no slot of a general polynomial loses terms because another member is odd or even -/
+theorem vector_with_general_member (fl : List (Bool × Bool)) (f : Bool × Bool) (hf : f ∈ fl) (hgen : f.1 = f.2) (k : Nat) :
+    useIdx (vecFlags fl).1 (vecFlags fl).2 k = true ∧ ((vecFlags fl).2 || !(vecFlags fl).1) = true := by
+  have h1 : (vecFlags fl).1 = true := by
+    unfold vecFlags; simp only [List.any_eq_true]; refine ⟨f, hf, ?_⟩
+    obtain ⟨a, b⟩ := f; simp only at hgen; subst hgen; cases a <;> rfl
+  have h2 : (vecFlags fl).2 = true := by
+    unfold vecFlags; simp only [List.any_eq_true]; refine ⟨f, hf, ?_⟩
+    obtain ⟨a, b⟩ := f; simp only at hgen; subst hgen; cases a <;> rfl
+  rw [h1, h2]
+  refine ⟨?_, rfl⟩
+  unfold useIdx
+  rcases Nat.mod_two_eq_zero_or_one k with h | h <;> simp [h]
+
+example : vecFlags [(false, false), (true, false)] = (true, true) ∧ vecFlags [(true, false), (true, false)] = (true, false) ∧
+    vecFlags [(true, false), (false, true)] = (true, true) := by decide
+
+/-- **mixed_parity_vector_evaluates** (kernel evaluation of the machine; the tie lines reproduce it on the real
+    code): a GENERAL polynomial with both flags cleared on slot 0 and an ODD polynomial on slot 1, degree 3:
+    each slot gets its own polynomial, `5+7x+11x²+13x³` at 2 and `7x+13x³` at 3 -/
+theorem mixed_parity_vector_evaluates :
+    (run { t := 65537, q := [705, 16321, 16577], cheb := false, slots := 2,
+           odd := (vecFlags [(false, false), (true, false)]).1, even := (vecFlags [(false, false), (true, false)]).2,
+           pflags := [(false, false), (true, false)] }
+      [[5, 7, 11, 13], [0, 7, 0, 13]] (some [[0], [1]]) false 2 1 1 [2, 3]).2.2.map (·.val) = some [167, 372] := by
+  decide +kernel
+
 /-! ## user-set flags, the caller's basis, the scale-invariant mode (witnesses on the machine) -/
 
 /-- with `IsOdd = IsEven` (both set, the constructor's default, or both cleared) `Factorize` skips nothing -/
@@ -540,6 +588,9 @@ example : chebEval 2 4 5 [1, 2, 3] = 1 + 2 * 2 + 3 * (2 * 2 * 2 - 1) := by decid
 #print axioms factorize_guard_spec
 #print axioms unmapped_slots_zero
 #print axioms unmapped_slot_evaluates_to_zero
+#print axioms vector_parity_spec
+#print axioms vector_with_general_member
+#print axioms mixed_parity_vector_evaluates
 #print axioms sim_backpropagation_spec_bfv
 #print axioms target_scale_bfv
 #print axioms goldschmidt_spec
